@@ -80,6 +80,9 @@ def classify(run, bad):
         if op == "write":
             return "late-write-reports-%s" % bad.get("res")
         return "ret-rejected:%s" % op
+    if ev == "settled":
+        fw = [r.get("fault") for r in before if r.get("ev") == "call" and r.get("fault")]
+        return "no-teardown-after-%s" % ("write-error-" + fw[0] if fw else "closing-call-returned")
     if ev == "end":
         n = sum(1 for r in before if r.get("ev") == "teardown")
         if n == 0:
@@ -161,7 +164,7 @@ def run_replay(ctx):
 def run(ctx):
     if ctx.replay:
         return run_replay(ctx)
-    r = ctx.tlc("ConnClose")
+    r = ctx.tlc("ConnClose", ctx.pick("ConnClose_2.cfg", "ConnClose.cfg"))
     mc_states = r.distinct
     ctx.log("ConnClose.tla (Once respected, recover present): %d distinct states, invariants hold" % r.distinct)
     r = ctx.tlc("ConnClose", "ConnClose_broken.cfg", allow_violation=True, count=False, extra=["-continue"])
@@ -175,13 +178,15 @@ def run(ctx):
     n_enum = len(s2)
     rnd.shuffle(s2)
     if ctx.quick:
-        # seeded sample: one third with a handler switch, one third with a failing underlying Close
-        def has_switch(x):
-            return any(k.startswith("switch") for k in x["kind"].values())
-        a = [x for x in s2 if has_switch(x)][:90]
-        b = [x for x in s2 if not has_switch(x) and x["closefail"]][:80]
-        c = [x for x in s2 if not has_switch(x) and not x["closefail"]][:80]
-        s2 = a + b + c
+        # seeded sample over the classes: handler switch / failing socket write / failing Close / plain
+        def has(x, *prefixes):
+            return any(k.startswith(prefixes) for k in x["kind"].values())
+        a = [x for x in s2 if has(x, "switch")][:70]
+        w = [x for x in s2 if has(x, "wreset", "wclosed") and not has(x, "switch")][:70]
+        rest = [x for x in s2 if not has(x, "switch", "wreset", "wclosed")]
+        b = [x for x in rest if x["closefail"]][:60]
+        c = [x for x in rest if not x["closefail"]][:50]
+        s2 = a + w + b + c
     s3 = ctx.tlc("ConnClose", "ConnClose_sched3.cfg", workers=1, count=False,
                  simulate=ctx.pick(60, 2500), depth=14).printed_json("SCHED")
     fr = ctx.tlc("ConnClose", "ConnClose_faults.cfg", workers=1)
